@@ -247,7 +247,8 @@ PROPS['C12'] = dict(
 PROPS['C16'] = dict(
     harness='apiseq', env={'VH_PROP': 'C16'}, replay_timeout=10,
     exhaustive_note=lambda tier, tot: [dict(scope='field-name lengths ' + ('0..300, 32700..32800, 65500..65600, 69999' if tier == 'quick' else '0..2000, 32000..33600, 65000..66200, 69990..69999') +
-                                             ' x 2 variants: cursor stopped on an un-entered array, then 4 lookups overshooting onto the long name, a hit, 3 misses after it, a hit, leave, verify - each call measured',
+                                             ' x 4 variants: cursor stopped on an un-entered array, then 4 lookups overshooting onto the long name, a hit, 3 misses after it, a hit, leave, verify - each call measured; '
+                                             'and [string | bytes of that length, 1]: verify, walk, to_string into NULL / need-1 / need / need+1 / 2L+64 / 4L+4096 bytes under the alarm',
                                              exhaustive=True, cases=tot['counters'].get('enum_name_sweep_cases', 0))],
     rule=(APISEQ_RULE + 'The harness installs a counting callback in the public cb slot before every call: per call, token callbacks <= bytes the cursor '
           'advanced + 1 (+1 more for a failed lookup, which re-reads the one name it overshot, and for get_raw/to_writer, which scan twice), token callbacks '
